@@ -74,7 +74,13 @@ bool ops_map(Ctx& c, const json& s, int idx, bool& handled) {
 			if (w == 0 || (w & (w - 1)) != 0) { Proto::mismatch(fsite, "width-not-a-power-of-two", where("width " + std::to_string(w))); return false; }
 			if ((unsigned long long)m.TileCount() != w * h) { Proto::mismatch(fsite, "tiles-not-width-times-height", where(std::to_string(m.TileCount()) + " tiles for " + std::to_string(w) + " x " + std::to_string(h))); return false; }
 			// the returned object is usable: serialising it is an ordinary success or error
-			if (m.TileCount() < (1u << 22)) { try { auto out = map_bytes(m);
+			if (m.TileCount() < (1u << 22)) { try { std::vector<unsigned char> out;
+					// C06 on EVERY accepted map image, whatever the fault did to its layout: it can be written, the written length is the consumed length, and writing is byte-stable
+					if (!save) { const std::string lsite = fsite + "/roundtrip-law"; const std::size_t consumed0 = (std::size_t)r.Position();
+						try { out = map_bytes(m); } catch (const std::exception& e) { Proto::mismatch(lsite, "write-refused", where(std::string("the reader accepted the image, the writer refuses the map: ") + e.what())); return false; }
+						if (out.size() != consumed0) { Proto::mismatch(lsite, "length", where("wrote " + std::to_string(out.size()) + " bytes for " + std::to_string(consumed0) + " consumed")); return false; }
+						Map m3; if (throws([&] { m3 = map_from(out); }) || map_bytes(m3) != out) { Proto::mismatch(lsite, "not-byte-stable", where("")); return false; } }
+					else out = map_bytes(m);
 					// C06 on what the reader accepted: the written bytes are the consumed bytes, the saved-game word normalised and the undocumented word regenerated
 					if (!save && s.contains("unkOff") && s["unkOff"].get<std::size_t>() > 0) { const std::size_t consumed = (std::size_t)r.Position(), fo = s["flagOff"], uo = s["unkOff"]; const std::string lsite = fsite + "/roundtrip-law";
 						if (out.size() != consumed) { Proto::mismatch(lsite, "length", where("wrote " + std::to_string(out.size()) + " bytes for " + std::to_string(consumed) + " consumed")); return false; }
